@@ -180,7 +180,7 @@ func c12Nodes(c *Ctx) {
 		return
 	}
 	n1.Send(drv, sink)
-	n := c.N(40, 600)
+	n := c.N(80, 600)
 	sizes := []int{0, 10, 900, 1100, 4000, 4100, 9000, 20000, 70000}
 	type sent struct {
 		cmd *c12nCmd
